@@ -24,6 +24,8 @@ CAT = {"M": 0, "C": 1}
 
 import loader_tie as _loader_tie
 TRUSTED = TRUSTED + [_loader_tie.TRUSTED]
+import loader2_tie as _loader2_tie
+TRUSTED = TRUSTED + [_loader2_tie.TRUSTED]
 
 
 def collect(g, pt, limit):
@@ -575,6 +577,9 @@ def run(ctx):
     # ... and of the loader that builds the groups (group-probability clause)
     import loader_tie
     corr.append(loader_tie.obligation())
+    # ... and of _load_terminals / _load_from_multiple_files, which decide which file becomes which group list
+    import loader2_tie
+    corr += loader2_tie.obligations("C04")
     return {"evaluations": dist["calls"], "distinct_nontrivial": nontrivial, "rule": rule, "samples": samples,
             "corr": corr, "violations": vio, "dist": dist}
 
